@@ -22,7 +22,7 @@
    Not proved (hence partial): that NO internal assertion of a multi-step coroutine can fire for any schedule (1301 is
    evaluated on every trace; two of the four assertion sites need an id-discipline invariant that is not proved);
    the wire layers (JSON / protobuf decoding) are the libraries'. *)
-From RV Require Import Mon MonC13 MonC05 MonC03 MonC05h Valid Route Plug Discipline SysInv PC13 PT05 Spec.WitnessD2.
+From RV Require Import Mon MonC13 MonC05 MonC03 MonC05h Valid Route Plug Discipline SysInv PC13 PT05 PT13 Spec.WitnessD2.
 
 Theorem C13_front_contract :
   (forall q, req_wf_b q = true -> req_asserts q = true) /\
@@ -94,3 +94,15 @@ Print Assumptions C13_poison_refuted.
 Theorem C13_registration_never_asserts : forall cfg sch, sch_wf sch -> C05ya_mon (events cfg sch) = [].
 Proof. exact C05ya_trace. Qed.
 Print Assumptions C13_registration_never_asserts.
+
+(* a second assertion site, for EVERY schedule (Proofs/PT13.v): the time-out sweep asserts that every promise it was
+   handed is overdue.  In every state a schedule of well-formed requests can reach, the completion of a time-out read
+   carries only rows that were pending and due at the time the read names, and it is delivered at a clock that is not
+   before that time: the assertion cannot fire. *)
+Theorem C13_sweep_never_asserts : forall cfg sch pe t l c now' next,
+    sch_wf sch ->
+    let s := state_after cfg (sys0 db0) sch in
+    In pe (s_pend s) -> pd_sub pe = SStore [ReadPromises t l] -> pd_ready pe = Some c -> (s_now s <= now')%Z ->
+    o_resp (resume_seq cfg KBgTimeoutP c now' next) <> Some RspPanic.
+Proof. exact sweep_never_asserts. Qed.
+Print Assumptions C13_sweep_never_asserts.
